@@ -740,6 +740,63 @@ fn cursor_all<const N: usize>(m: &mut Map<Key, Val, N>, kind: &str, pool: &[Cls]
     json!({"win": win, "hc": hc, "hs": format!("{:016x}", hs), "count": count})
 }
 
+/// Everything a consuming cursor (Drain / IntoIter) yields until it is exhausted: watched entries listed,
+/// hidden ones counted and digested, exact len() / size_hint() before every step, None after the end.
+/// The yielded pairs go into `bag` (the caller owns them now).
+fn consume_all<I: ExactSizeIterator<Item = (Key, Val)>>(mut it: I, pool: &[Cls], ctx: &Ctx, bag: &mut Vec<(Key, Val)>) -> (Value, Vec<String>) {
+    let mut win: Vec<Value> = vec![];
+    let (mut hc, mut hs, mut count) = (0usize, 0u64, 0usize);
+    let (mut inexact, mut late) = (0usize, 0usize);
+    ledger::arm();
+    let r = std::panic::catch_unwind(std::panic::AssertUnwindSafe(|| {
+        let mut expect = it.len();
+        loop {
+            let (l, sh) = (it.len(), it.size_hint());
+            if l != expect || sh != (l, Some(l)) {
+                inexact += 1;
+            }
+            let (k, v) = match it.next() {
+                Some(x) => x,
+                None => break,
+            };
+            expect = expect.saturating_sub(1);
+            let _s = ledger::Suspend::new();
+            count += 1;
+            if pool.contains(&k.cls.class) {
+                k.check("yielded key");
+                v.check("yielded value");
+                win.push(json!([ctx.tags.ktag(k.serial), k.cls.class, k.ver, ctx.tags.vtag(v.serial), v.content]));
+            } else {
+                hc += 1;
+                hs = hs.wrapping_add(kv_digest(&k, &v));
+            }
+            bag.push((k, v));
+        }
+        for _ in 0..2 {
+            if let Some(x) = it.next() {
+                late += 1;
+                let _s = ledger::Suspend::new();
+                bag.push(x);
+            }
+        }
+        drop(it);
+    }));
+    let na = ledger::disarm();
+    let mut notes = vec![];
+    if r.is_err() {
+        notes.push("[C10] a complete consuming traversal panicked".to_string());
+    } else if na > 0 {
+        notes.push(format!("[C06] {na} allocator call(s) inside a complete consuming traversal"));
+    }
+    if inexact > 0 {
+        notes.push(format!("[C10] len() / size_hint() were not exact before {inexact} step(s) of a complete consuming traversal"));
+    }
+    if late > 0 {
+        notes.push("[C10] a consuming cursor yielded an item after the end".to_string());
+    }
+    (json!({"win": win, "hc": hc, "hs": format!("{:016x}", hs), "count": count}), notes)
+}
+
 impl Gen {
     /// a call about watched keys only
     fn win_op(&mut self, pool: &[Cls], present: &[Cls]) -> Value {
@@ -836,7 +893,8 @@ fn run_map_window<const N: usize>(g: &mut Gen, steps: usize, out: &mut impl Writ
         writeln!(out, "{}", json!({"o": {"name": "reset"}, "n": N, "mode": "map", "init": init})).unwrap();
     }
     let mut max_index_touched = 0usize;
-    for _ in 0..steps {
+    for phase in 0..2usize {
+    for _ in 0..(if phase == 0 { steps } else { 25 }) {
         let pre = observe_window(&cage.m, &pool);
         let present: Vec<Cls> = pre.ents.iter().map(|(k, _)| k.class).collect();
         let pre_len = cage.m.len();
@@ -911,6 +969,65 @@ fn run_map_window<const N: usize>(g: &mut Gen, steps: usize, out: &mut impl Writ
         .unwrap();
         events += 1;
         drop(ctx);
+    }
+    // ---- the whole content leaves through a consuming cursor: drain() after the first phase (the container
+    //      must be empty and reusable: it is refilled and driven on), into_iter() after the second
+    {
+        let pre = observe_window(&cage.m, &pool);
+        let mut ctx = Ctx::new(false);
+        for (idx, (k, v)) in pre.ents.iter().enumerate() {
+            ctx.tags.bind_k(idx as i64 + 1, k.serial);
+            ctx.tags.bind_v(idx as i64 + 1, v.serial);
+        }
+        let s: Vec<Value> = pre.ents.iter().map(|(k, v)| json!([k.class, k.ver, v.content])).collect();
+        ledger::mark();
+        let name = if phase == 0 { "drain_all" } else { "into_iter_all" };
+        let mut bag: Vec<(Key, Val)> = Vec::with_capacity(N);
+        let (ret, notes) = if phase == 0 {
+            consume_all(cage.m.drain(), &pool, &ctx, &mut bag)
+        } else {
+            let old = std::mem::replace(&mut cage.m, Map::new());
+            consume_all(old.into_iter(), &pool, &ctx, &mut bag)
+        };
+        let mut viol: Vec<String> = notes;
+        let all_viol = ledger::with(|l| l.viol.clone());
+        viol.extend(all_viol.iter().skip(viol_seen).cloned());
+        viol_seen = all_viol.len();
+        if !cage.intact() {
+            viol.push("memory outside the container was written".into());
+        }
+        let drops = ledger::with(|l| l.drops.clone());
+        let (dk, dv) = tags_of(&ctx, &drops);
+        let post = observe_window(&cage.m, &pool);
+        let p: Vec<Value> =
+            post.ents.iter().map(|(k, v)| json!([ctx.tags.ktag(k.serial), k.class, k.ver, ctx.tags.vtag(v.serial), v.content])).collect();
+        writeln!(
+            out,
+            "{}",
+            json!({"n": N, "mode": "map", "s": s, "o": {"name": name}, "r": ret, "p": p, "dk": dk, "dv": dv, "lk": [], "lv": [],
+                   "len": cage.m.len(), "empty": cage.m.is_empty(), "viol": viol, "injected": false,
+                   "hid": pre.hid, "hid2": post.hid, "hsum": format!("{:016x}", pre.hsum), "hsum2": format!("{:016x}", post.hsum),
+                   "hksum": format!("{:016x}", pre.hksum)})
+        )
+        .unwrap();
+        events += 1;
+        // the caller drops what it was handed, outside every observed call
+        drop(bag);
+        ledger::mark();
+        if phase == 0 {
+            // "fully reusable": fill it again (the harness' own preparation) and go on
+            {
+                let _q = ledger::Quiet::new();
+                for c in 0..fill {
+                    cage.m.insert(Key::new(c as Cls, 1), Val::new((c % 3) as u8));
+                }
+            }
+            let w0 = observe_window(&cage.m, &pool);
+            let init: Vec<Value> = w0.ents.iter().map(|(k, v)| json!([k.class, k.ver, v.content])).collect();
+            writeln!(out, "{}", json!({"o": {"name": "reset"}, "n": N, "mode": "map", "init": init})).unwrap();
+            events += 1;
+        }
+    }
     }
     {
         // the final drop of 65 000+ instrumented pairs: every object exactly once - what the ledger saw, and
